@@ -1,6 +1,7 @@
 import Driver.Util
 import CLModel.Model.Primary
 import CLModel.Model.Sha256
+import CLModel.Model.Zn
 /-! driver operations for the RSA side of the protocol (C01–C07, C11, C12) -/
 open Lean CL CL.Pri
 
@@ -8,48 +9,18 @@ namespace Drv
 
 /-! ## executable group: integers modulo `n` -/
 
-def modPowNat (b e m : Nat) : Nat := Id.run do
-  if m == 1 then return 0
-  let mut result := 1
-  let mut base := b % m
-  let mut ex := e
-  while ex > 0 do
-    if ex % 2 == 1 then result := result * base % m
-    base := base * base % m
-    ex := ex / 2
-  return result
+/-! The group itself lives in `CLModel/Model/Zn.lean` (structural / well-founded recursion, so
+    that its laws are theorems: `Proofs/Zn.lean`); the names below are the driver's aliases. -/
 
-/-- extended Euclid on integers: `(g, x)` with `a·x ≡ g (mod n)` -/
-partial def egcd (a n : Int) : Int × Int :=
-  let rec go (r0 r1 t0 t1 : Int) : Int × Int :=
-    if r1 == 0 then (r0, t0) else
-    let q := r0 / r1
-    go r1 (r0 - q * r1) t1 (t0 - q * t1)
-  go (a % n) n 1 0
+def modPowNat (b e m : Nat) : Nat := CL.Zn.modPowNat b e m
 
-def modInv (a n : Int) : Outcome Int :=
-  if n ≤ 1 then .err else
-  let (g, x) := egcd (a % n) n
-  if g == 1 then .ok (x % n) else .err
+def modInv (a n : Int) : Outcome Int := CL.Zn.modInv a n
 
 /-- `to_bytes`: big-endian magnitude, zero is the empty string on both backends (the pure-Rust
     backend used to emit `[0]`; repaired in /repo) -/
-def encInt (_rustBackend : Bool) (x : Int) : ByteArray := Sha.natToBytes x.natAbs
+def encInt (_rustBackend : Bool) (x : Int) : ByteArray := CL.Zn.encInt x
 
-def znOps (n : Int) (rustBackend : Bool) : GroupOps Int :=
-  { mul := fun a b => (a * b) % n
-    pow := fun b e =>
-      if n == 0 then .err
-      else if e < 0 then
-        match modInv b n with
-        | .ok bi => .ok (modPowNat bi.toNat e.natAbs n.natAbs)
-        | .err => .err
-        | .panic => .panic
-      else .ok (modPowNat (b % n).toNat e.toNat n.natAbs)
-    inv := fun a => modInv a n
-    one := 1
-    enc := encInt rustBackend
-    beq := fun a b => a == b }
+def znOps (n : Int) (_rustBackend : Bool) : GroupOps Int := CL.Zn.znOps n
 
 /-- `hash_list_to_bignum`: SHA-256 over the concatenation, read big-endian -/
 def hashList (bs : List ByteArray) : Int :=
